@@ -1,7 +1,7 @@
 /-
 Crash states of a whole call, of the GC pass that ends `open`, and of `open` itself, from a state
-satisfying the relaxed invariant: at any byte `open` succeeds with the queues before or after, up
-to the handles; at an effect boundary the recovered log satisfies the relaxed invariant again.
+satisfying the relaxed invariant: at ANY byte `open` succeeds with the queues before or after, up
+to the handles, and the recovered log satisfies the relaxed invariant again.
 -/
 import MRL.Proofs.LDecomp
 import MRL.Proofs.HSecond
@@ -21,8 +21,7 @@ theorem call_cutX (g : Geom) (hB : g.B ≤ 65542) {l : Log} {J : List JE} {D : I
     (hfits : ∀ j ∈ J ++ l.stepJ g c order, C07.WF j.e)
     (htorn : TornEffs (l.step g c tick order).2.2) (w : Bool) (X : Image)
     (hX : CutW w D (l.step g c tick order).2.2 X) :
-    XRes g l.queues (l.step g c tick order).1.queues X ∧
-      (w = true → XInvRes g l.queues (l.step g c tick order).1.queues X) := by
+    XInvRes g l.queues (l.step g c tick order).1.queues X := by
   obtain ⟨A, U, S, heff, _, hS, hpre, habs, hfin⟩ := step_decompX g hB h c tick order hfits htorn
   rw [heff] at hX
   rcases CutW.of_append _ hX with hX | hX
@@ -33,31 +32,28 @@ theorem call_cutX (g : Geom) (hB : g.B ≤ 65542) {l : Log} {J : List JE} {D : I
       cases k'' with
       | zero =>
         simp only [List.take_zero, List.map_nil, applyOsOps, List.foldl_nil]
-        have := hpre true _ (CutW.full true A D)
-        exact ⟨this.1, fun _ => this.2 rfl⟩
+        exact hpre true _ (CutW.full true A D)
       | succ k'' =>
-        have := (habs (k'' + 1) (Nat.succ_pos _) hk).inr (qB := l.queues)
-        exact ⟨this.xres, fun _ => this⟩
+        exact (habs (k'' + 1) (Nat.succ_pos _) hk).inr (qB := l.queues)
   · have hXe := cutW_syncL hS hX
     rw [hXe]
     have : applyOsOps D (directOps (A ++ U.map Effect.unlink)) =
         applyOsOps D (directOps (l.step g c tick order).2.2) := by
       rw [heff, directOps_append (A ++ U.map Effect.unlink), applyOsOps_append, syncL_apply hS]
     rw [this]
-    exact ⟨hfin.xres, fun _ => hfin⟩
+    exact hfin
 
-/-- **crash while the GC touches are written**, from a relaxed state -/
+/-- **crash while the GC touches are written**, from a relaxed state, at any byte -/
 theorem touch_phase_crashX (g : Geom) (hB : g.B ≤ 65542) {l : Log} {J : List JE} {D : Image}
     (h : CInvX g l J D) (names : List Bytes) (hnames : ∀ n ∈ names, n ∈ l.queues.emptyNames)
     (hwf : ∀ j ∈ J ++ touchesJ g l names, C07.WF j.e)
     (htorn : TornEffs (writeTouches g l names).2.1) (w : Bool) (X : Image)
     (hX : CutW w D (writeTouches g l names).2.1 X) :
-    XRes g l.queues l.queues X ∧ (w = true → XInvRes g l.queues l.queues X) := by
-  have hwfJ : ∀ j ∈ J, C07.WF j.e := fun j hj => hwf j (List.mem_append_left _ hj)
+    XInvRes g l.queues l.queues X := by
   have hF : l.files.headD 0 ≤ l.cur := head_le_of_mem h.jinv.h.files.sorted h.jinv.h.files.cur_mem
-  obtain ⟨init, t, x, afs, lead, gs, x0⟩ := h.disk
-  obtain ⟨i3, t3, x3, ntf, ns, B, y3, hlen3, hnil3, hP3, hcut3, hmem3⟩ :=
-    touches_extX g (l.files.headD 0) lead names _ _ _ _ _ _ _ _ x0
+  obtain ⟨init, t, x, res, ais, lead, gs, x0⟩ := h.disk
+  obtain ⟨i3, t3, x3, r3, ais3, gs3, y3, hcut3⟩ :=
+    touches_extX g (l.files.headD 0) lead names _ _ _ _ _ _ _ _ _ x0
   have hch := touchesJ_chunk g names l h.jinv.h.files
   have hchunk3 := h.jinv.chunk.append hch
   obtain ⟨hHl, chunk, qs, hrep, heq, hqwf⟩ := h.jinv
@@ -73,44 +69,20 @@ theorem touch_phase_crashX (g : Geom) (hB : g.B ≤ 65542) {l : Log} {J : List J
     exact ⟨q1, r1, AbsEq.of_qsEquiv r2⟩
   have hsub : ∀ i, (J ++ (touchesJ g l names).take i).Sublist (J ++ touchesJ g l names) :=
     fun i => List.Sublist.append_left (List.take_sublist _ _) _
-  have hwhole : ∀ i, DiskX g X (l.files.headD 0) (J ++ (touchesJ g l names).take i) →
-      XInvRes g l.queues l.queues X := by
-    intro i hd policy
-    obtain ⟨q, hq, hqe⟩ := hreps i
-    obtain ⟨J', lp, io, hrec, hc, hw, hab, hpol, hhead⟩ := open_diskX g hB hd
-      (fun j hj => hwf j ((hsub i).subset hj)) (fun j hj => hchunk3.wf j ((hsub i).subset hj))
-      (hchunk3.mono.sublist (hsub i)) q hq policy
-    exact ⟨J', lp, io, _, hrec, hhead, hc, hw, hpol, Or.inl (hab.symm.trans hqe)⟩
-  obtain ⟨Pm, hct, hpc, hpw⟩ := hcut3 w X hX
-  refine ⟨?_, fun hw => by obtain ⟨i, _, hd⟩ := hpw hw; exact hwhole i hd⟩
-  by_cases hn : names = []
-  · subst hn
-    have : X = D := by simpa [writeTouches] using hX.nil_inv
-    have hd0 := hwhole 0 (by rw [this]; simpa using x0.diskX)
-    exact hd0.xres
+  obtain ⟨i, _, hd⟩ := hcut3 htorn w X hX
   intro policy
-  have hnewloc : ∀ j ∈ touchesJ g l names, l.files.headD 0 ≤ j.loc := by
-    intro j hj
-    have := hch.bounds j hj; omega
-  obtain ⟨qf, hqf, _⟩ := hreps names.length
-  rw [List.take_of_length_le (by rw [touchesJ_length]; exact Nat.le_refl _)] at hqf
-  obtain ⟨i, qsr, lp, e0, io, hi, hqr, hrec, hlq⟩ := phase_readX g hB x0 y3 (hlen3 hn).2 hnewloc hwf qf hqf
-    (by
-      intro a ha
-      obtain ⟨f, off, hm⟩ := hmem3 a ha
-      exact htorn _ _ f off hm)
-    X Pm hct.ctape hpc policy
   obtain ⟨q, hq, hqe⟩ := hreps i
-  rw [hqr] at hq
-  cases hq
-  exact ⟨lp, e0, io, hrec, Or.inl (hlq.symm.trans hqe)⟩
+  obtain ⟨J', lp, io, hrec, hc, hw, hab, hpol, hhead⟩ := open_diskX g hB hd
+    (fun j hj => hwf j ((hsub i).subset hj)) (fun j hj => hchunk3.wf j ((hsub i).subset hj))
+    (hchunk3.mono.sublist (hsub i)) q hq policy
+  exact ⟨J', lp, io, _, hrec, hhead, hc, hw, hpol, Or.inl (hab.symm.trans hqe)⟩
 
 /-- every crash state of a GC pass alone -/
 theorem gc_cutX (g : Geom) (hB : g.B ≤ 65542) {l : Log} {J : List JE} {D : Image} (h : CInvX g l J D)
     (order : List Bytes) (hfits : ∀ j ∈ J ++ gcJ g l order, C07.WF j.e)
     (htorn : TornEffs (runGc g l order).2.1) (w : Bool) (X : Image)
     (hX : CutW w D (runGc g l order).2.1 X) :
-    XRes g l.queues l.queues X ∧ (w = true → XInvRes g l.queues l.queues X) := by
+    XInvRes g l.queues l.queues X := by
   have hwfJ : ∀ j ∈ J, C07.WF j.e := fun j hj => hfits j (List.mem_append_left _ hj)
   have hfinal := cinvx_gc g h order
   have hfin : XInvRes g l.queues l.queues (applyOsOps D (directOps (runGc g l order).2.1)) := by
@@ -126,7 +98,7 @@ theorem gc_cutX (g : Geom) (hB : g.B ≤ 65542) {l : Log} {J : List JE} {D : Ima
       intro policy
       obtain ⟨J', lp, io, F', a1, a2, a3, a4, a5, a6⟩ := xinvres_of_cinvx g hB h hwfJ policy
       exact ⟨J', lp, io, F', a1, a2, a3, a4, a5, Or.inl a6⟩
-    exact ⟨hres.xres, fun _ => hres⟩
+    exact hres
   · have hnames : ∀ n ∈ names, n ∈ l.queues.emptyNames := by
       rcases runGc_shape g l order h.jinv.h.inv.1 with ⟨hs1, _⟩ | ⟨names', _, _, hs1, _, _, hs5⟩
       · rw [hr1] at hs1
@@ -149,7 +121,7 @@ theorem gc_cutX (g : Geom) (hB : g.B ≤ 65542) {l : Log} {J : List JE} {D : Ima
       rw [heff]
       exact List.mem_append_left _ (List.mem_append_left _ hv)
     have hpre : ∀ (w : Bool) X, CutW w D (writeTouches g l names).2.1 X →
-        XRes g l.queues l.queues X ∧ (w = true → XInvRes g l.queues l.queues X) :=
+        XInvRes g l.queues l.queues X :=
       fun w X hX => touch_phase_crashX g hB h names hnames hfits htorn2 w X hX
     rw [heff] at hX
     rcases CutW.of_append _ hX with hX | hX
@@ -157,8 +129,7 @@ theorem gc_cutX (g : Geom) (hB : g.B ≤ 65542) {l : Log} {J : List JE} {D : Ima
       · exact hpre w X hX
       · have := cutW_syncL (isSyncL_persist _ _) hX
         rw [this]
-        have hfull := hpre true _ (CutW.full true _ _)
-        exact ⟨hfull.1, fun _ => hfull.2 rfl⟩
+        exact hpre true _ (CutW.full true _ _)
     · obtain ⟨k, hk, hXe⟩ := cutW_unlinks _ hX
       rw [hXe]
       have hD : applyOsOps D (directOps ((writeTouches g l names).2.1 ++
@@ -169,28 +140,26 @@ theorem gc_cutX (g : Geom) (hB : g.B ≤ 65542) {l : Log} {J : List JE} {D : Ima
       cases k with
       | zero =>
         simp only [List.take_zero, List.map_nil, applyOsOps, List.foldl_nil]
-        have hfull := hpre true _ (CutW.full true _ D)
-        exact ⟨hfull.1, fun _ => hfull.2 rfl⟩
+        exact hpre true _ (CutW.full true _ D)
       | succ k =>
         have hr3 : (runGc g l order).1 = { (writeTouches g l names).1 with
             files := (gcFiles ((writeTouches g l names).1.canDelete l.cur) (writeTouches g l names).1.files).1 } := by
           rw [hr2]
-        have := unlink_phase_crashX g hB h order names hr1 hr3 hfits (k + 1) (Nat.succ_pos _) hk
-        exact ⟨this.xres, fun _ => this⟩
+        exact unlink_phase_crashX g hB h order names hr1 hr3 hfits (k + 1) (Nat.succ_pos _) hk
 
 /-- the first file of a `DiskX`-like tape is full: `ensureLen` on it changes nothing -/
 theorem ensureLen_head (g : Geom) {l : Log} {J : List JE} {D : Image} (h : CInvX g l J D) :
     applyOsOps D (directOps [Effect.ensureLen (l.files.headD 0) g.fileBytes]) = D := by
-  obtain ⟨init, t, x, afs, lead, gs, hx⟩ := h.disk
+  obtain ⟨init, t, x, res, ais, lead, gs, hx⟩ := h.disk
   simp only [directOps, List.flatMap_cons, List.flatMap_nil, direct, List.append_nil,
     applyOsOps, List.foldl_cons, List.foldl_nil]
   apply ensureLen_full
   intro kv hkv hk
   rw [hx.tape.img] at hkv
   rcases List.mem_append.mp hkv with hkv | hkv
-  · have hfull := tapeX_chunks hx.tape
+  · have hfull := tapeR_chunks hx.tape
     have : kv.2.length = g.fileBytes := by
-      generalize init ++ [t ++ zeros (g.fileBytes - l.off)] = cs at hfull hkv
+      generalize init ++ [t ++ (res ++ zeros (g.fileBytes - l.off - res.length))] = cs at hfull hkv
       generalize l.files.headD 0 = F0 at hkv
       induction cs generalizing F0 with
       | nil => cases hkv
